@@ -16,10 +16,11 @@ EXPLANATION = (
     "messages under the caller's key, tries every message, and otherwise returns Err(UnknownRecipient). C10.4: seal = "
     "encrypt_to_recipient(sign(self, sender), recipient); unseal = verify(decrypt_to_recipient(self, recipient)?, sender); the wrap-and-"
     "encrypt forms wrap before / unwrap after. Adding a recipient only adds an assertion (C04), digest preservation is C02/C08. C10.8: the decrypt_subject instances of C08 (digest guards, node rebuilt through the node constructor, decrypt = unwrap(decrypt_subject)) re-evaluated here. Does not "
-    "decide KEM/AEAD security ('any other private key gets an error').")
+    "decide KEM/AEAD security ('any other private key gets an error')."
+    " C10.4 also covers seal_opt = encrypt_to_recipient(sign_opt(self, sender, options), recipient). C10.9: add_recipient* never returns self on a test of the receiver.")
 TRUSTED = ['SealedMessage::new_opt seals its plaintext to the given public key; SealedMessage::decrypt opens only with the matching private key',
            'SymmetricKey::new() draws a fresh random key']
-FLOORS = {'C10.1': 3, 'C10.2': 2, 'C10.3': 3, 'C10.4': 4, 'C10.8': 5}
+FLOORS = {'C10.1': 3, 'C10.2': 2, 'C10.3': 3, 'C10.4': 5, 'C10.8': 5, 'C10.9': 1}
 P1, P2, P3, P4 = [('param', i) for i in range(1, 5)]
 
 
@@ -245,6 +246,9 @@ def check(ctx):
       E = lambda *a: expected_call(F, *a)
       comp('seal', lambda v: is_call(v, 'encrypt_to_recipient', lambda s: is_call(s, 'sign', eq(P1), eq(P2)), eq(P3)), 'encrypt_to_recipient(sign(self, sender), recipient)',
            E('encrypt_to_recipient', E('sign', P1, P2), P3))
+      P4 = ('param', 4)
+      comp('seal_opt', lambda v: is_call(v, 'encrypt_to_recipient', lambda s: is_call(s, 'sign_opt', eq(P1), eq(P2), eq(P4)), eq(P3)),
+           'encrypt_to_recipient(sign_opt(self, sender, options), recipient)', E('encrypt_to_recipient', E('sign_opt', P1, P2, P4), P3))
       comp('unseal', lambda v: is_call(v, 'verify', lambda s: is_call(s, 'decrypt_to_recipient', eq(P1), eq(P3)), eq(P2)), 'verify(decrypt_to_recipient(self, recipient)?, sender)',
            E('verify', E('decrypt_to_recipient', P1, P3), P2))
     E = lambda *a: expected_call(F, *a)
@@ -283,3 +287,7 @@ def check(ctx):
         C08.check(Relabel(ctx, 'C10.8', ['C08.2', 'C08.3', 'C08.5']))
     except Exception as e:
         ctx.fail('C10.8', '-', 'symmetric round-trip obligations (C08.2/3/5) could not be evaluated: %r' % e, key='C10.8|c08')
+    # C10.9: add_recipient* always adds the recipient's sealed key (no exit that returns self on a test of the receiver: an envelope that
+    # already carries assertions next to its encrypted subject must get the further recipient too)
+    from .C07 import check_add_self_returns
+    check_add_self_returns(ctx, 'C10.9', prefix='add_recipient', floor=2)
